@@ -14,10 +14,15 @@ Definition ne (segs : list seg) : list seg :=
 Definition seg_rules (g : seg) : list erule := match g with Seq l | Par l => l end.
 Definition executed (segs : list seg) : list erule := flat_map seg_rules segs.
 
-(* keys of the result map: one per executed rule that reported the returned-flag *)
+(* the result map: one entry per executed rule that reported the returned-flag, bound to the
+   value that rule returned (None = nil, a bare [return]); a rule that runs again rebinds its key *)
+Definition add_entry (m : rmap) (r : erule) : rmap :=
+  if eret r then set_entry m (en r) (eval r) else m.
+Definition result_entries (l : list erule) : rmap := fold_left add_entry l [].
+Definition result_keys (l : list erule) : list string := map fst (result_entries l).
+(* the key-level view of [add_entry] (Engine/Sound.v: [map fst (add_entry m r) = add_key (map fst m) r]) *)
 Definition add_key (m : list string) (r : erule) : list string :=
   if eret r then (if existsb (String.eqb (en r)) m then m else m ++ [en r]) else m.
-Definition result_keys (l : list erule) : list string := fold_left add_key l [].
 
 (* the rules a sorted (one at a time) stage runs: with stop-on-error (b = false) up to and
    including the first failing rule; with a stop tag up to and including the first rule
@@ -55,7 +60,7 @@ Definition inverse_stage (c : cfg) (l : list erule) : list seg * bool :=
   | _ =>
     if Nat.leb (length l) 2 then sorted_stage false false c l
     else let init := removelast l in
-         let lst := last l (mkER "" 0 false false false) in
+         let lst := last l (mkER "" 0 false false false None) in
          if any_fail init then ([Par init], true)
          else ([Par init; Seq [lst]], efail lst)
   end.
@@ -139,12 +144,18 @@ Definition spec (e : entry) (c : cfg) : list seg * bool :=
 
 Definition spec_outcome (e : entry) (c : cfg) : outcome :=
   let '(segs, err) := spec e c in
-  mkOut segs err (if err then RetErr else RetNil) (Some (result_keys (executed segs))).
+  mkOut segs err (if err then RetErr else RetNil) (Some (result_entries (executed segs))).
 
 (* ---------- boolean equality of outcomes, used by the correspondence run ---------- *)
+Definition oz_eqb (a b : option Z) : bool :=
+  match a, b with
+  | None, None => true
+  | Some x, Some y => Z.eqb x y
+  | _, _ => false
+  end.
 Definition erule_eqb (a b : erule) : bool :=
   (String.eqb (en a) (en b) && Z.eqb (esal a) (esal b) && Bool.eqb (efail a) (efail b)
-   && Bool.eqb (eret a) (eret b) && Bool.eqb (estop a) (estop b))%bool.
+   && Bool.eqb (eret a) (eret b) && Bool.eqb (estop a) (estop b) && oz_eqb (eval a) (eval b))%bool.
 
 Fixpoint list_eqb {A} (eqb : A -> A -> bool) (a b : list A) : bool :=
   match a, b with
@@ -162,10 +173,12 @@ Definition status_eqb (a b : status) : bool :=
   | Running, Running | RetNil, RetNil | RetErr, RetErr | Crash, Crash | Stuck, Stuck | Unmodelled, Unmodelled => true
   | _, _ => false
   end.
-Definition omap_eqb (a b : option (list string)) : bool :=
+Definition entry_eqb (a b : string * option Z) : bool :=
+  (String.eqb (fst a) (fst b) && oz_eqb (snd a) (snd b))%bool.
+Definition omap_eqb (a b : option rmap) : bool :=
   match a, b with
   | None, None => true
-  | Some x, Some y => list_eqb String.eqb x y
+  | Some x, Some y => list_eqb entry_eqb x y
   | _, _ => false
   end.
 Definition outcome_eqb (a b : outcome) : bool :=
